@@ -120,8 +120,13 @@ class Conn:
 
 
 class Driver:
-    def __init__(self, workers=("w1", "w2", "w3"), clients=("k1",), policy=None, channels=CHANNELS, result_hook=None):
+    def __init__(self, workers=("w1", "w2", "w3"), clients=("k1",), policy=None, channels=CHANNELS, result_hook=None,
+                 restart_via_file=False):
         self.result_hook = result_hook or (lambda op: "r")
+        self.data_dir = None
+        if restart_via_file:
+            import tempfile
+            self.data_dir = tempfile.mkdtemp(prefix="qs-data-")
         self.clock = Clock(1)
         qs.jobs.time = self.clock
         qs.jobs.random = Chooser(self)
@@ -129,7 +134,11 @@ class Driver:
         self.channels = list(channels)
         self.workers = list(workers)
         self.clients = list(clients)
-        self.db = qs.qserve.db()
+        if self.data_dir:
+            self.main = qs.qserve.Main(0, "localhost", self.data_dir, None)
+            self.db = self.main.db
+        else:
+            self.db = qs.qserve.db()
         self.events = []
         self.errors = []
         self.pending_post = None
@@ -522,15 +531,12 @@ class Driver:
         self._fill()
         self.incarnation += 1
         old = self._old_greenlets()
-        if via_file:
-            m = qs.qserve.Main.__new__(qs.qserve.Main)
-            m.qpath = via_file
-            m.db = self.db
-            m.savedb()
-            m2 = qs.qserve.Main.__new__(qs.qserve.Main)
-            m2.data_dir = __import__("os").path.dirname(via_file)
-            m2.loaddb()
-            self.db = m2.db
+        if self.data_dir:
+            # the server's own way: Main.savedb when it stops, a new Main (-> loaddb) on the same data dir
+            self.main.db = self.db
+            self.main.savedb()
+            self.main = qs.qserve.Main(0, "localhost", self.data_dir, None)
+            self.db = self.main.db
         else:
             self.db = pickle.loads(pickle.dumps(self.db, 2))
         for g in old:
@@ -543,6 +549,9 @@ class Driver:
         self._event({"op": "restart"})
 
     def close(self):
+        if self.data_dir:
+            __import__("shutil").rmtree(self.data_dir, ignore_errors=True)
+            self.data_dir = None
         self.incarnation += 1
         for g in self._old_greenlets():
             if g is not None and not g.dead:
